@@ -11,21 +11,21 @@ type propDef struct {
 var propertyOrder = []string{"C01", "C02", "C03", "C04", "C05", "C06", "C07", "C08", "C09", "C10", "C11", "C12", "C13", "C14", "C15", "C16", "C17"}
 
 var properties = map[string]*propDef{
-	"C01": {Rules: []string{"TAB-NOTE", "TAB-DEGREE"}},
+	"C01": {Rules: []string{"TAB-NOTE", "TAB-DEGREE", "TAB-CHORDS", "TAB-DEFAULTS"}},
 	"C02": {Rules: []string{}},
-	"C03": {Rules: []string{"TAB-KEYSIG", "TAB-NOTE", "TAB-DEGREE"}},
+	"C03": {Rules: []string{"TAB-KEYSIG", "TAB-NOTE", "TAB-DEGREE", "TAB-SEARCH"}},
 	"C04": {Rules: []string{}},
 	"C05": {Rules: []string{}},
 	"C06": {Rules: []string{}},
-	"C07": {Rules: []string{"TAB-KEYSIG"}},
+	"C07": {Rules: []string{"TAB-KEYSIG", "TAB-DYNAMICS", "TAB-DEFAULTS"}},
 	"C08": {Rules: []string{}},
 	"C09": {Rules: []string{}},
-	"C10": {Rules: []string{"TAB-NOTATION"}},
+	"C10": {Rules: []string{"TAB-NOTATION", "TAB-REGEX", "TAB-DYNAMICS"}},
 	"C11": {Rules: []string{}},
 	"C12": {Rules: []string{}},
 	"C13": {Rules: []string{"TAB-KEYSIG"}},
-	"C14": {Rules: []string{}},
+	"C14": {Rules: []string{"TAB-CIRCLE"}},
 	"C15": {Rules: []string{"TAB-DEGREE", "TAB-NOTATION", "TAB-NOTE"}},
-	"C16": {Rules: []string{}},
-	"C17": {Rules: []string{}},
+	"C16": {Rules: []string{"TAB-CHORDS", "TAB-ATTRS"}},
+	"C17": {Rules: []string{"TAB-DIATONIC", "TAB-LEXNAMES", "TAB-CHORDS", "TAB-KEYSIG"}},
 }
